@@ -24,7 +24,9 @@ SymText == << "a", "c", "h", "i", "A", "H", "`",        \*  1..7   file letters 
               "U+00E9", "U+20AC", "U+0161", "U+FF11", "U+1F600",     \* 24..28 non-ASCII
               \* 29..32: characters whose LOW BYTE is an accepted ASCII character (a truncating
               \* `as u8` would alias them): rank digit 1, direction n, piece r, pass p
-              "U+0131", "U+016E", "U+0172", "U+0170" >>
+              "U+0131", "U+016E", "U+0172", "U+0170",
+              \* 33..36: upper-case forms of accepted lower-case letters that are NOT piece letters
+              "P", "N", "S", "W" >>
 K == Len(SymText)
 Sym(t) == CHOOSE k \in 1..K : SymText[k] = t
 
